@@ -97,6 +97,15 @@ def damage_data_block(lab, c, disk, pos, shape="flip0"):
     fp = os.path.join(lab.p(disk).encode(), f.sub)
     st = os.lstat(fp)
     bs = c.block_size
+    if shape == "cut":
+        # the file loses its last few bytes (time-stamp kept): damage confined to its LAST block; on any other block: a bit flip
+        if i == len(f.blocks) - 1 and st.st_size > 1:
+            tail = st.st_size - i * bs           # bytes of the file inside its last block: the cut never reaches the block before
+            with open(fp, "r+b") as fh:
+                fh.truncate(st.st_size - min(10, tail, st.st_size - 1))
+            os.utime(fp, ns=(st.st_mtime_ns, st.st_mtime_ns))
+            return f.sub, i
+        shape = "flip0"
     with open(fp, "r+b") as fh:
         fh.seek(i * bs)
         old = fh.read(bs)
